@@ -208,6 +208,7 @@ type verifDBWorld struct {
 	perm      *LeveldbPermanent
 	center    *Center
 	cachesize int
+	wcache    int // state cache size of the block write databases (0: cachesize)
 }
 
 func verifDBNewWorld(cachesize int) *verifDBWorld {
@@ -242,7 +243,9 @@ func (w *verifDBWorld) writeBlock(blk *verifDBBlock, importer bool) error {
 		return err
 	}
 	bw := i.(*LeveldbBlockWrite)
-	if w.cachesize > 0 {
+	if w.wcache > 0 {
+		bw.SetStateCache(util.NewLFUGCache[string, [2]interface{}](w.wcache))
+	} else if w.cachesize > 0 {
 		bw.SetStateCache(util.NewLFUGCache[string, [2]interface{}](w.cachesize))
 	}
 	if importer {
